@@ -906,6 +906,16 @@ func (p *Parser) Parse() (Statement, error) {
 		FieldTypes: selectStmt.FieldTypes,
 	}
 
+	// Field names used inside field definitions are resolved first: the
+	// type of a field defined through another field is known only then.
+	// An error found here is reported after the other clauses' errors
+	fieldsErr := selectStmt.ValidateFields(checkCtx)
+	for i, f := range selectStmt.Fields {
+		if i < len(selectStmt.FieldTypes) {
+			selectStmt.FieldTypes[i] = f.ReturnType()
+		}
+	}
+
 	for p.tok != nil {
 		switch p.tok.Tp {
 		case ORDER:
@@ -962,6 +972,5 @@ func (p *Parser) Parse() (Statement, error) {
 	selectStmt.Limit = limitStmt
 	selectStmt.Order = orderStmt
 	selectStmt.GroupBy = groupByStmt
-	err = selectStmt.ValidateFields(checkCtx)
-	return selectStmt, err
+	return selectStmt, fieldsErr
 }
